@@ -728,6 +728,9 @@ def _apply_hints(body, hints, fname):
     return out, lost
 
 
+PROBE = None   # None | "entry" | "tail": set by build(..., probe=)
+
+
 def splice_fn(text, spec, unit_rewrites=()):
     """text: one fn item (already through generic rewrites)."""
     text = r_local_const(text)
@@ -749,7 +752,12 @@ def splice_fn(text, spec, unit_rewrites=()):
             body, n = re.subn(rx, rp, body)
             if n == 0:
                 lost.append("bodysub /%s/" % rx)
-        body, l2 = _apply_hints(body, spec.hints, spec.name)
+        hints = list(spec.hints)
+        if PROBE and (spec.requires or spec.ensures) and not spec.external_body:
+            # vacuity probe (thorough tier): this `assert(false)` must FAIL; if it verifies, the contract's
+            # preconditions (entry) or the callee contracts on the way to the end of the body (tail) are contradictory
+            hints = [("entry" if PROBE == "entry" else "before-tail", "proof { assert(false); } // verif vacuity probe")] + hints
+        body, l2 = _apply_hints(body, hints, spec.name)
         lost += l2
     out = []
     if spec is not None:
@@ -847,8 +855,17 @@ class Emitted:
         self.trusted = []        # lines with external_body / assume_specification / admit / assume
 
 
-def build(unit, repo_root, source_map=None):
+def build(unit, repo_root, source_map=None, probe=None):
     """source_map: {relpath in unit file: relpath actually read} (the jiff-static copy of shared/)."""
+    global PROBE
+    PROBE = probe
+    try:
+        return _build(unit, repo_root, source_map)
+    finally:
+        PROBE = None
+
+
+def _build(unit, repo_root, source_map=None):
     em = Emitted()
     source_map = source_map or {}
     chunks = []
